@@ -2694,6 +2694,29 @@ class ChannelManager:
             )
             return
 
+        # Check that the peer's MTU and MPS are in the valid range
+        if (
+            request.mtu < L2CAP_LE_CREDIT_BASED_CONNECTION_MIN_MTU
+            or request.mps < L2CAP_LE_CREDIT_BASED_CONNECTION_MIN_MPS
+            or request.mps > L2CAP_LE_CREDIT_BASED_CONNECTION_MAX_MPS
+        ):
+            logger.warning(
+                f'unacceptable parameters: mtu={request.mtu}, mps={request.mps}'
+            )
+            self.send_control_frame(
+                connection,
+                cid,
+                L2CAP_LE_Credit_Based_Connection_Response(
+                    identifier=request.identifier,
+                    destination_cid=0,
+                    mtu=server.mtu,
+                    mps=server.mps,
+                    initial_credits=0,
+                    result=L2CAP_LE_Credit_Based_Connection_Response.Result.CONNECTION_REFUSED_UNACCEPTABLE_PARAMETERS,
+                ),
+            )
+            return
+
         # Check that the CID isn't already used
         le_connection_channels = self.le_coc_channels.setdefault(connection.handle, {})
         if request.source_cid in le_connection_channels:
